@@ -9,6 +9,7 @@
 #include "llvm/IR/IntrinsicInst.h"
 #include "llvm/IR/Constants.h"
 #include "llvm/IR/DebugInfoMetadata.h"
+#include "llvm/IR/DebugInfo.h"
 #include "llvm/IR/DataLayout.h"
 #include "llvm/IR/Operator.h"
 #include "llvm/IR/GetElementPtrTypeIterator.h"
@@ -650,6 +651,47 @@ int main(int argc, char **argv)
         first = false;
         OS << esc(F.getName()) << ":{\"dem\":" << esc(demangle(F.getName().str())) << "," << fnsig(C, F)
            << ",\"intrinsic\":" << (F.isIntrinsic() ? "true" : "false") << "}";
+    }
+    OS << "},\"enums\":{";
+    {
+        DebugInfoFinder Finder;
+        Finder.processModule(*M);
+        std::map<std::string, std::string> seen;
+        for (DIType *T : Finder.types()) {
+            auto *CT = dyn_cast<DICompositeType>(T);
+            if (!CT || CT->getTag() != dwarf::DW_TAG_enumeration_type || CT->getName().empty())
+                continue;
+            std::string qn = CT->getName().str();
+            for (const DIScope *sc = CT->getScope(); sc; sc = sc->getScope()) {
+                if (isa<DIFile>(sc) || isa<DICompileUnit>(sc))
+                    break;
+                if (!sc->getName().empty())
+                    qn = sc->getName().str() + "::" + qn;
+            }
+            if (seen.count(qn))
+                continue;
+            std::string v = "{";
+            bool f2 = true;
+            for (const DINode *E : CT->getElements()) {
+                if (auto *EN = dyn_cast<DIEnumerator>(E)) {
+                    if (!f2)
+                        v += ",";
+                    f2 = false;
+                    SmallString<32> str;
+                    EN->getValue().toStringSigned(str);
+                    v += esc(EN->getName()) + ":" + std::string(str.c_str());
+                }
+            }
+            v += "}";
+            seen[qn] = v;
+        }
+        first = true;
+        for (auto &kv : seen) {
+            if (!first)
+                OS << ",";
+            first = false;
+            OS << esc(kv.first) << ":" << kv.second;
+        }
     }
     OS << "},\"files\":[";
     for (unsigned i = 0; i < C.filelist.size(); ++i) {
